@@ -158,6 +158,16 @@ def parse_instr(s):
         if s == "ret void":
             return Instr(None, "ret", ty="void", a=None)
         raise Unsupported(s)
+    if op == "extractvalue":
+        m = re.match(rf"extractvalue\s+\{{\s*({INT_TY}),\s*i1\s*\}}\s+({VAL}),\s*([01])$", s)
+        if not m:
+            raise Unsupported(s)
+        return Instr(dest, "extractvalue", ty=m.group(1) if m.group(3) == "0" else "i1", agg=m.group(2), idx=int(m.group(3)))
+    if op in ("call", "tail", "notail", "musttail") and re.search(r"@llvm\.[su](add|sub|mul)\.with\.overflow\.", s):
+        m = re.match(rf"(?:tail\s+|notail\s+|musttail\s+)?call\s+\{{\s*({INT_TY}),\s*i1\s*\}}\s+@llvm\.([su])(add|sub|mul)\.with\.overflow\.i\d+\(({INT_TY})\s+({VAL}),\s*({INT_TY})\s+({VAL})\)$", s)
+        if not m:
+            raise Unsupported(s)
+        return Instr(dest, "ovf", ty=m.group(1), signed=m.group(2) == "s", arith=m.group(3), a=m.group(5), b=m.group(7))
     if op in ("call", "tail", "notail", "musttail"):
         m = re.match(r"(?:tail\s+|notail\s+|musttail\s+)?call\s+(?:[\w]+\s+)*?(void|i\d+|double)\s+@([\w.]+)\((.*)\)$", s)
         if not m:
